@@ -30,6 +30,40 @@ let table_op ~(valid : bool) (n : nat) (expected : string) (f : n -> bool) : boo
     Some (int_of_nat r.nv = int_of_nat n && chk_table n r.tbl f)
 
 
+(* ---- C04 / C05 beyond full enumeration: a deterministic sample of group elements for chk_below (which is sound for any
+   list: Proofs/CheckSoundCanonSample.v). Identity, every transposition, every rotation, every single complementation,
+   and pseudo-random elements from a fixed seed. *)
+let group_sample (group : int) (n : int) : (n list * n) list =
+  let st = Random.State.make [| 0x5eed; group; n |] in
+  let idp = List.init n (fun i -> i) in
+  let to_n p = List.map n_of_int p in
+  let transp i j = List.map (fun k -> if k = i then j else if k = j then i else k) idp in
+  let rot r = List.map (fun k -> (k + r) mod n) idp in
+  let rand_perm () =
+    let a = Array.of_list idp in
+    for i = n - 1 downto 1 do
+      let j = Random.State.int st (i + 1) in
+      let t = a.(i) in a.(i) <- a.(j); a.(j) <- t
+    done; Array.to_list a in
+  let perms_ =
+    if group = 1 then [idp] else
+    let ts = List.concat (List.init n (fun i -> List.init i (fun j -> transp i j))) in
+    let rs = List.init (max 0 (n - 1)) (fun r -> rot (r + 1)) in
+    idp :: ts @ rs @ List.init (if n <= 7 then 24 else 8) (fun _ -> rand_perm ()) in
+  let full = (1 lsl (n + 1)) - 1 in
+  let masks_ =
+    if group = 0 then [0] else
+    let singles = List.init (n + 1) (fun i -> 1 lsl i) in
+    0 :: full :: (1 lsl n) :: singles @ List.init (if group = 1 then 120 else 6) (fun _ -> Random.State.int st (full + 1)) in
+  if group = 2 then
+    (* products of a few permutations with a few masks, plus every permutation alone and every mask alone *)
+    let some_p = List.filteri (fun i _ -> i mod 3 = 0) perms_ in
+    let some_m = List.filteri (fun i _ -> i mod 2 = 0) masks_ in
+    List.map (fun p -> (to_n p, n_of_int 0)) perms_ @ List.map (fun m -> (to_n idp, n_of_int m)) masks_
+    @ List.concat (List.map (fun p -> List.map (fun m -> (to_n p, n_of_int m)) some_m) some_p)
+  else List.concat (List.map (fun p -> List.map (fun m -> (to_n p, n_of_int m)) masks_) perms_)
+
+
 (* ---- C18: the forms returned by the MIP optimizers are valid, and a valid witness is not cheaper.
    args: functions ; costs... ; witness kind ; witness      result: the returned forms *)
 let mip_check (op : string) (a : string array) (expected : string) : bool =
@@ -61,6 +95,22 @@ let ecube_bits (e : ecube) = bits_of_n e.evars
 
 let check (op : string) (ty : string) (a : string array) (expected : string) : bool option =
   let dyn = (ty = "D") in
+  (* the copying form of swap_adjacent takes its receiver by mutable reference: it must leave it alone. The line records
+     the receiver before (argument, as the function it denotes) and after (result, raw): they must be the same table.
+     An `operand_changed` line is only written when a borrowed operand of a logical operator came back changed. *)
+  if op = "all_functions_after" then
+    (* C02 / C08: the run has 2^(2^n) items; whatever the iterator yields after its end is a well-formed table *)
+    (if expected = "panic" then Some false else
+     let n = p_nat a.(0) in
+     match String.split_on_char ';' expected with
+     | cnt :: rest ->
+        let total = 1 lsl (1 lsl (int_of_nat n)) in
+        Some (int_of_string cnt = total &&
+              List.for_all (fun it -> it = "none" || (let l = p_lut it in int_of_nat l.nv = int_of_nat n && wfb n l.tbl)) rest)
+     | [] -> Some false) else
+  if op = "swap_adjacent.receiver" then
+    (let x = p_lut a.(0) in if not (wf_ x) then None else Some (expected = "panic" || expected = s_lut x)) else
+  if String.length op > 16 && String.sub op 0 16 = "operand_changed." then Some false else
   match base_of op with
   (* ---- C01 *)
   | "not" -> let x = p_lut a.(0) in if not (wf_ x && small x) then None else table_op ~valid:true x.nv expected (spec_not x.tbl)
@@ -155,7 +205,8 @@ let check (op : string) (ty : string) (a : string array) (expected : string) : b
         P (n! elements) up to n = 6, N (2^(n+1)) up to n = 8, NPN up to n = 5 *)
      let nvi = int_of_nat x.nv in
      let affordable = (match group with 0 -> nvi <= 6 | 1 -> nvi <= 8 | _ -> nvi <= 5) in
-     let minimal = if affordable then chk_minimal (nat_of_int group) x.nv x.tbl c.tbl else true in
+     let minimal = if affordable then chk_minimal (nat_of_int group) x.nv x.tbl c.tbl
+                   else chk_below (nat_of_int group) x.nv x.tbl c.tbl (group_sample group nvi) in
      Some (cert && minimal)
   (* ---- C06 *)
   | "top_decomposition" -> let x = p_lut a.(0) and v = p_n a.(1) in
